@@ -28,8 +28,8 @@ void vp_atomic_begin(void){} void vp_atomic_end(void){}
 void vp_shared(const void*,size_t){}
 void vp_point(const char*){}
 void vp_nothrow(bool){}
-bool vp_feq(float a,float b){ double d=(double)a-(double)b; if(d<0)d=-d; double s=1+(a<0?-a:a)+(b<0?-b:b); return d<=2e-3*s || (a!=a&&b!=b); }
-bool vp_deq(double a,double b){ double d=a-b; if(d<0)d=-d; double s=1+(a<0?-a:a)+(b<0?-b:b); return d<=1e-6*s || (a!=a&&b!=b); }
+bool vp_feq(float a,float b){ if(a==b) return true; double d=(double)a-(double)b; if(d<0)d=-d; double s=1+(a<0?-a:a)+(b<0?-b:b); return d<=2e-3*s || (a!=a&&b!=b); }
+bool vp_deq(double a,double b){ if(a==b) return true; double d=a-b; if(d<0)d=-d; double s=1+(a<0?-a:a)+(b<0?-b:b); return d<=1e-6*s || (a!=a&&b!=b); }
 }
 int main(int argc,char**argv){
   if(argc<2){fprintf(stderr,"usage: %s <entry>\n",argv[0]);return 2;}
